@@ -244,7 +244,11 @@ def parse_rvalue(s):
         s = s[len('no_retag '):].strip()
     if s.startswith('&raw const ') or s.startswith('&raw mut '):
         k = s.index(' ', 5)
-        return ('rawptr', parse_place(s[k:]))
+        rest = s[k:].strip()
+        if rest.startswith('(fake) '):
+            # the fake raw borrow rustc takes of an indexed slice before its bounds check (only PtrMetadata reads it)
+            rest = rest[len('(fake) '):]
+        return ('rawptr', parse_place(rest))
     if s.startswith('&mut '):
         return ('ref', True, parse_place(s[5:]))
     if s.startswith('&'):
